@@ -18,7 +18,9 @@ import (
 // VerifHook is set by the harness (package api) before each MigrateFile call.
 var VerifHook struct {
 	Point        func(name string) // called at before_copy, after_copy, after_meta, after_delete
-	CopyMode     string            // "" real copy | "fail" no byte is copied | "midstream" the source fails half way
+	CopyMode     string            // "" real copy | "fail" no byte is copied | "midstream" the source read fails after CopyCut bytes
+	CopyCut      int               // midstream: 0 = no byte, 1 = one byte, 2 = half the file, 3 = all but the last byte
+	RecordFail   bool              // the tier_migrations insert (RecordMigration) returns an error
 	MetaFail     bool              // UpdateTier returns an error
 	RollbackFail bool              // deleting the cold copy during rollback fails
 	SourceFail   bool              // deleting the hot copy fails
@@ -30,19 +32,41 @@ func verifPoint(name string) {
 	}
 }
 
-type verifHalfSource struct{ StreamingBackend }
+// verifCutSource is a hot backend whose ReadTo really delivers the first k bytes
+// (0 <= k < size) of the file and then fails.
+type verifCutSource struct {
+	StreamingBackend
+	cut int
+}
 
-func (h verifHalfSource) ReadTo(ctx context.Context, path string, w io.Writer) error {
+func (h verifCutSource) ReadTo(ctx context.Context, path string, w io.Writer) error {
 	pr, pw := io.Pipe()
 	go func() { pw.CloseWithError(h.StreamingBackend.ReadTo(ctx, path, pw)) }()
 	data, err := io.ReadAll(pr)
 	if err != nil {
 		return err
 	}
-	if _, err := w.Write(data[:len(data)/2]); err != nil {
-		return err
+	k := len(data) / 2
+	switch h.cut {
+	case 0:
+		k = 0
+	case 1:
+		k = 1
+	case 3:
+		k = len(data) - 1
 	}
-	return errors.New("verif: source stream interrupted")
+	if k >= len(data) {
+		k = len(data) - 1
+	}
+	if k < 0 {
+		k = 0
+	}
+	if k > 0 {
+		if _, err := w.Write(data[:k]); err != nil {
+			return err
+		}
+	}
+	return errors.New("verif: source read failed after delivering part of the file")
 }
 
 func verifCopy(m *Migrator, ctx context.Context, src, dst StreamingBackend, path string, size int64) error {
@@ -50,7 +74,7 @@ func verifCopy(m *Migrator, ctx context.Context, src, dst StreamingBackend, path
 	case "fail":
 		return errors.New("streaming copy failed: verif: injected")
 	case "midstream":
-		return m.copyFileStreaming(ctx, verifHalfSource{src}, dst, path, size)
+		return m.copyFileStreaming(ctx, verifCutSource{src, VerifHook.CopyCut}, dst, path, size)
 	}
 	return m.copyFileStreaming(ctx, src, dst, path, size)
 }
@@ -60,6 +84,13 @@ func verifUpdateTier(s *MetadataStore, ctx context.Context, path string, t Tier)
 		return errors.New("verif: injected metadata failure")
 	}
 	return s.UpdateTier(ctx, path, t)
+}
+
+func verifRecordMigration(s *MetadataStore, ctx context.Context, r *MigrationRecord) (int64, error) {
+	if VerifHook.RecordFail {
+		return 0, errors.New("verif: injected tier_migrations insert failure")
+	}
+	return s.RecordMigration(ctx, r)
 }
 
 func verifDelete(which string, b storage.Backend, ctx context.Context, path string) error {
